@@ -62,6 +62,8 @@ def worker(states):
             why = 'probes ran %s, expected %s' % ([e['p'] for e in obs['log']], [e['p'] for e in run['log']])
         else:
             for e, law in zip(obs['log'], run['law']):
+                if e.get('what') == 'call':      # a plain callable cannot see the mode: that it was called (in order) is the observation
+                    continue
                 if e['v'] != law:
                     why = 'probe at %s interpreted containers as %s, lexical mode is %s (%s)' % (e['p'], e['v'], law, e['raw'])
                     break
@@ -76,6 +78,8 @@ def worker(states):
                 why = 'probing from inside a First key: probes ran %s, expected %s' % ([e['p'] for e in obs2['log']], [e['p'] for e in run['log']])
             else:
                 for e, law in zip(obs2['log'], run['law']):
+                    if e.get('what') == 'call':
+                        continue
                     if e['v'] != law:
                         why = 'probe at %s inside a First key interpreted containers as %s, lexical mode is %s (%s)' % (e['p'], e['v'], law, e['raw'])
                         break
